@@ -40,6 +40,10 @@ def _term(rng, syms, depth):
         return _term(rng, syms, depth - 1) ** rng.choice([2, 3])
     if r < 0.90:
         return _term(rng, syms, depth - 1) / (1 + _atom(rng, syms) ** 2)
+    if r < 0.915 and syms:
+        # an expression sympy.simplify rewrites (to 1): harmless numerically, visible if someone simplifies in place
+        a = rng.choice(syms)
+        return sin(a) ** 2 + cos(a) ** 2
     if r < 0.93 and syms:
         # quadratic-drag shape: v*|v| written as v*sqrt(v**2) (sign-sensitive; an "assume positive" rewrite breaks it)
         v = rng.choice(syms)
@@ -180,13 +184,41 @@ def curated(name):
     if name == "rect":  # rectangular: 2 readings of 3 states + calibration (stride bug family)
         x, v, w, c = Symbol("x"), Symbol("v"), Symbol("w"), Symbol("c")
         return _mk(name, ["x", "v", "w"], [], ["c"], {"x": x + dt * v, "v": v, "w": w + dt * c}, {}, {"s": ({"r1": 3 * w + 5 * v, "r0": 2 * x + v + c}, {"r0": 0.5, "r1": 0.7})}, {"c": 0.25}, tags=["curated", "multi_reading_sensor"])
+    if name == "landmark":  # range / bearing / range-rate to a calibrated landmark: nested shared sub-expressions (many CSE temporaries)
+        from sympy import atan2, sqrt
+
+        x, y, vx, vy, lx, ly, ax = (Symbol(n) for n in ["x", "y", "vx", "vy", "lx", "ly", "ax"])
+        dx, dy = lx - x, ly - y
+        rng_ = sqrt(dx ** 2 + dy ** 2)
+        return _mk(name, ["x", "y", "vx", "vy"], ["ax"], ["lx", "ly"],
+                   {"x": x + dt * vx, "y": y + dt * vy, "vx": vx + dt * ax, "vy": vy - 0.1 * dt * vy},
+                   {"ax": 0.4},
+                   {"radar": ({"range": rng_, "bearing": atan2(dy, dx), "rate": -(dx * vx + dy * vy) / rng_}, {"range": 0.3, "bearing": 0.05, "rate": 0.2}),
+                    "gps": ({"px": x, "py": y}, {"px": 0.5, "py": 0.6})},
+                   {"lx": 7.0, "ly": -6.0}, tags=["curated", "multi_reading_sensor", "nested_cse"])
     raise KeyError(name)
 
 
-CURATED = ["mass_zva", "managed", "direct2", "cv", "rect"]
+CURATED = ["mass_zva", "managed", "direct2", "cv", "rect", "landmark"]
 
 
 # --------------------------------------------------------------------------- building real objects
+def add_simplifiable(d, rng):
+    """rewrite one reading e as e*(sin(a)**2 + cos(a)**2): the same function (a 'linear' model stays linear in value and
+    jacobian), but an expression sympy.simplify rewrites -- visible if something simplifies a caller's dict in place"""
+    keys = [k for k in d["sensors"] if d["sensors"][k]["readings"]]
+    syms = d["state"] + d["calibration"]
+    if not keys or not syms:
+        return d
+    k = rng.choice(keys)
+    r = rng.choice(sorted(d["sensors"][k]["readings"]))
+    a = Symbol(rng.choice(sorted(syms)))
+    e = parse(d["sensors"][k]["readings"][r])
+    d["sensors"][k]["readings"][r] = srepr(sympy.Mul(e, sin(a) ** 2 + cos(a) ** 2, evaluate=False) if rng.random() < 0.5 else e * (sin(a) ** 2 + cos(a) ** 2))
+    d["tags"] = sorted(set(d["tags"]) | {"simplifiable_reading"})
+    return d
+
+
 def parse(s):
     return sympy.sympify(s) if not isinstance(s, str) else eval(s, {"__builtins__": {}}, _NS)  # noqa: S307 (srepr of our own expressions)
 
